@@ -418,7 +418,12 @@ func (reader *DataReader) next() ([]byte, *DataPos, error) {
 		// 映射文件 (mmap) 未正常关闭时, 逻辑末尾之后是预分配的全零区域.
 		// 全零的 chunk 头部不可能是有效数据 (空数据的校验和也不为 0), 视为数据结束
 		if reader.offset+chunkHeaderSize <= size && isZero(reader.blockBuf[reader.offset:reader.offset+chunkHeaderSize]) {
-			return nil, nil, reader.fail(pos, cnt, io.EOF)
+			err = reader.fail(pos, cnt, io.EOF)
+			// 全零头部之后仍有数据, 说明不是从未写入的区域, 而是文件中部被清零的损坏
+			if !reader.RestIsZero() {
+				err = ErrInvalidCRC
+			}
+			return nil, nil, err
 		}
 
 		// 对当前 chunk 解码
